@@ -402,5 +402,38 @@ def run(prog, chk, tier):
     counter_flow(prog, chk, "stun_proto::agent::STUN_AGENT_COUNT", "stun_proto::agent::StunAgentBuilder::build",
                  "stun_proto::agent::StunAgent::StunAgent", "id")
     instants(prog, chk, "stun_proto::agent::StunRequestState::StunRequestState")
-    n = hash_order(prog, chk, seen)
-    chk.floor("hash-iteration-sites", n, 1)
+    hash_order(prog, chk, seen)
+    positive_control(chk)
+
+
+def positive_control(chk):
+    """the zero-expectation rules above must fire on the deliberate violations of fixtures/positive
+    (and stay silent on its look-alikes), otherwise they are dead"""
+    import os
+    from report import Check
+    import facts, mir
+    fdir = os.path.join(os.path.dirname(os.path.dirname(os.path.dirname(os.path.abspath(__file__)))), "fixtures", "positive")
+    f, meta = facts.extract(repo=fdir, crates=("stunlint_fixture",), packages=("stunlint-fixture",))
+    fp = mir.Program(f)
+    c = Check("FIXTURE")
+    roots = sorted(fp.bodies)
+    seen = effects(fp, c, roots, set(), what="fixture")
+    hash_order(fp, c, seen)
+    bad = {"%s|%s" % (o["rule"], o["instance"]) for o in c.obs if not o["ok"]}
+    must = {
+        "forbidden-effect: Instant::now": lambda k: k.startswith("forbidden-effect|") and "Instant::now" in k,
+        "forbidden-effect: std::env": lambda k: k.startswith("forbidden-effect|") and "std::env::var" in k,
+        "forbidden-effect: std::thread": lambda k: k.startswith("forbidden-effect|") and "std::thread::current" in k,
+        "static: Mutex table": lambda k: k.startswith("static|") and "TABLE" in k,
+        "hash-order: early exit": lambda k: k == "hash-order|stunlint_fixture::order::hash_first|values",
+        "hash-order: last wins": lambda k: k == "hash-order|stunlint_fixture::order::hash_last_wins|iter",
+        "hash-order: unsorted snapshot": lambda k: k == "hash-order|stunlint_fixture::order::hash_snapshot_unsorted|keys",
+    }
+    for name, pred in must.items():
+        chk.ob("positive-control", name, any(pred(k) for k in bad), "fixtures/positive/src/lib.rs",
+               detail="rule did not fire on the fixture violation (rule dead?)", how="fired on fixture")
+    must_not = ["hash_min_ok", "hash_sorted_ok", "btree_first_ok", "instant_math_ok"]
+    for name in must_not:
+        hit = [k for k in bad if name in k]
+        chk.ob("negative-control", name, not hit, "fixtures/positive/src/lib.rs", detail="false alarm on look-alike: %r" % hit,
+               how="silent on look-alike")
